@@ -8,6 +8,11 @@
 #include "utils/num2str.h"
 #include "utils/str2num.h"
 #include "utils/base64.h"
+#include "utils/strh2num.h"
+#include "utils/buf_str.h"
+#include "utils/xml.h"
+#include "math/crc32.h"
+#include "proto/http.h"
 
 /* ---------------------------------------------------------------- integer <-> text */
 static int64_t cur_sv; static uint64_t cur_uv; static const char *cur_fn;
@@ -151,10 +156,18 @@ b64_all(void) {
 	}
 }
 
+#include "c14_more.inc"
+
 int
 main(int argc, char **argv) {
 	vh_init(argc, argv);
+	crc_ref_selfcheck();
 	num_all();
 	b64_all();
+	hex_all();
+	strh_all();
+	xmlent_all();
+	url_all();
+	crc_all();
 	return (vh_finish());
 }
